@@ -9,8 +9,9 @@ package store_test
 // sent through the real HTTP handlers of a real node (http.Service over a
 // real store.Store): /db/execute with a JSON body, /db/execute with
 // text/plain, /db/execute?queue&wait, /db/request, and /db/load with SQL
-// text. The non-deterministic calls of one program all travel through ONE
-// endpoint kind (chosen per case), so a divergence names the endpoint.
+// text. Every endpoint kind writes to its own table (t_json, t_text, t_queue,
+// t_req, t_load), and every case uses every endpoint, so a divergence names
+// the endpoint by the table that differs.
 //
 // Apply paths compared (logical dump of the SQLite file, raw driver):
 //   live        the leader that served the requests
@@ -111,7 +112,7 @@ func c01Expr(rt *rapid.T, class string, allowND bool) (string, bool) {
 	}
 }
 
-func c01GenStmt(rt *rapid.T, class string, allowND, allowParams bool) (c01Stmt, int) {
+func c01GenStmt(rt *rapid.T, tbl, class string, allowND, allowParams bool) (c01Stmt, int) {
 	nd := 0
 	ex := func() string {
 		e, isND := c01Expr(rt, class, allowND)
@@ -137,50 +138,61 @@ func c01GenStmt(rt *rapid.T, class string, allowND, allowParams bool) (c01Stmt, 
 			}
 			vs = append(vs, fmt.Sprintf("(%s, %s, %s)", first, ex(), ex()))
 		}
-		st.SQL = "INSERT INTO r(a,b,c) VALUES " + strings.Join(vs, ", ")
+		st.SQL = "INSERT INTO " + tbl + "(a,b,c) VALUES " + strings.Join(vs, ", ")
 	case 4, 5:
 		m := rapid.IntRange(1, 4).Draw(rt, "mod")
-		st.SQL = fmt.Sprintf("UPDATE r SET a = %s, b = %s WHERE id %% %d = %d", ex(), ex(), m, rapid.IntRange(0, m-1).Draw(rt, "rem"))
+		st.SQL = fmt.Sprintf("UPDATE %s SET a = %s, b = %s WHERE id %% %d = %d", tbl, ex(), ex(), m, rapid.IntRange(0, m-1).Draw(rt, "rem"))
 	case 6:
-		st.SQL = fmt.Sprintf("INSERT INTO r(a,b,c) SELECT a, %s, %s FROM r WHERE id %% 2 = %d", ex(), ex(), rapid.IntRange(0, 1).Draw(rt, "rem"))
+		st.SQL = fmt.Sprintf("INSERT INTO %s(a,b,c) SELECT a, %s, %s FROM %s WHERE id %% 2 = %d", tbl, ex(), ex(), tbl, rapid.IntRange(0, 1).Draw(rt, "rem"))
 	case 7:
-		st.SQL = fmt.Sprintf("DELETE FROM r WHERE id %% 7 = %d", rapid.IntRange(0, 6).Draw(rt, "rem"))
+		st.SQL = fmt.Sprintf("DELETE FROM %s WHERE id %% 7 = %d", tbl, rapid.IntRange(0, 6).Draw(rt, "rem"))
 	case 8:
-		st.SQL = fmt.Sprintf("INSERT OR REPLACE INTO r(id,a,b) VALUES (%d, %s, %s)", rapid.IntRange(1, 6).Draw(rt, "id"), ex(), ex())
+		st.SQL = fmt.Sprintf("INSERT OR REPLACE INTO %s(id,a,b) VALUES (%d, %s, %s)", tbl, rapid.IntRange(1, 6).Draw(rt, "id"), ex(), ex())
 	case 9:
-		st.SQL = fmt.Sprintf("INSERT INTO r(a,b,c) VALUES (%s, %s, %s) ON CONFLICT(id) DO UPDATE SET a = %s", ex(), ex(), ex(), ex())
+		st.SQL = fmt.Sprintf("INSERT INTO %s(a,b,c) VALUES (%s, %s, %s) ON CONFLICT(id) DO UPDATE SET a = %s", tbl, ex(), ex(), ex(), ex())
 	}
 	return st, nd
 }
 
-func c01GenProgram(rt *rapid.T) (reqs []c01Req, ndEndpoint, class string) {
-	ndEndpoint = rapid.SampledFrom(c01Endpoints).Draw(rt, "ndEndpoint")
-	class = rapid.SampledFrom([]string{"random", "time", "both"}).Draw(rt, "ndClass")
-	n := rapid.IntRange(2, 6).Draw(rt, "nreq")
-	ndPlaced := false
-	for i := 0; i < n; i++ {
-		ep := rapid.SampledFrom(c01Endpoints).Draw(rt, "endpoint")
-		if i == n-1 && !ndPlaced {
-			ep = ndEndpoint
+var c01Table = map[string]string{"execute-json": "t_json", "execute-text": "t_text", "execute-queue": "t_queue", "request": "t_req", "load-text": "t_load"}
+
+// c01GenProgram: every endpoint kind (in a generated order) sends 1..2
+// requests of 1..3 statements against its own table.
+func c01GenProgram(rt *rapid.T) (reqs []c01Req) {
+	order := rapid.Permutation(c01Endpoints).Draw(rt, "endpointOrder")
+	for _, ep := range order {
+		nr := rapid.IntRange(1, 2).Draw(rt, "nreq")
+		for i := 0; i < nr; i++ {
+			r := c01Req{Endpoint: ep}
+			allowParams := ep == "execute-json" || ep == "execute-queue" || ep == "request"
+			if ep == "execute-json" || ep == "request" {
+				r.Tx = rapid.IntRange(0, 2).Draw(rt, "tx") == 0
+			}
+			ns := rapid.IntRange(1, 3).Draw(rt, "nstmt")
+			for j := 0; j < ns; j++ {
+				class := rapid.SampledFrom([]string{"random", "time", "both"}).Draw(rt, "ndClass")
+				st, nd := c01GenStmt(rt, c01Table[ep], class, true, allowParams)
+				r.Stmts = append(r.Stmts, st)
+				r.NonDet += nd
+			}
+			reqs = append(reqs, r)
 		}
-		r := c01Req{Endpoint: ep}
-		allowND := ep == ndEndpoint
-		allowParams := ep == "execute-json" || ep == "execute-queue" || ep == "request"
-		if ep == "execute-json" || ep == "request" {
-			r.Tx = rapid.IntRange(0, 2).Draw(rt, "tx") == 0
-		}
-		ns := rapid.IntRange(1, 3).Draw(rt, "nstmt")
-		for j := 0; j < ns; j++ {
-			st, nd := c01GenStmt(rt, class, allowND, allowParams)
-			r.Stmts = append(r.Stmts, st)
-			r.NonDet += nd
-		}
-		if r.NonDet > 0 {
-			ndPlaced = true
-		}
-		reqs = append(reqs, r)
 	}
-	return reqs, ndEndpoint, class
+	return reqs
+}
+
+// c01Split cuts a dump into its per-table sections (schema lines under "").
+func c01Split(d string) map[string]string {
+	out := map[string]string{}
+	cur := ""
+	for _, l := range strings.Split(d, "\n") {
+		if strings.HasPrefix(l, "TABLE ") {
+			f := strings.Fields(l)
+			cur = f[1]
+		}
+		out[cur] += l + "\n"
+	}
+	return out
 }
 
 // ------------------------------------------------------------------- node
@@ -269,12 +281,12 @@ func c01Dump(str *store.Store) (string, error) {
 
 func TestVerif_C01_Converge(t *testing.T) {
 	rec := vstat.New(t, "C01", "converge",
-		"generated SQL programs (2-6 requests of 1-3 statements: INSERT multi-row / UPDATE / DELETE / INSERT..SELECT / OR REPLACE / UPSERT, parameters, tx flag, multi-statement texts) sent through the real HTTP handlers (/db/execute JSON, text/plain, ?queue&wait, /db/request, /db/load SQL text); the calls of RANDOM/RANDOMBLOB/date-time-at-now of one program go through one endpoint kind; apply paths: live leader, live follower, restart replay (with or without snapshot), peers.json recovery of a copy, late joiner (log replay or snapshot install); non-trivial = >=1 non-deterministic call reached the node and >=3 apply paths were compared; distinct = hash of program + path options")
+		"generated SQL programs: every write endpoint (/db/execute JSON, text/plain, ?queue&wait, /db/request, /db/load SQL text; generated order) sends 1-2 requests of 1-3 statements (INSERT multi-row / UPDATE / DELETE / INSERT..SELECT / OR REPLACE / UPSERT, parameters, tx flag, multi-statement texts) with calls of RANDOM/RANDOMBLOB/date-time-at-now to its own table through the real HTTP handlers; apply paths: live leader, live follower, restart replay (with or without snapshot, optionally >1 s later), peers.json recovery of a copy, late joiner (log replay or snapshot install); non-trivial = >=1 non-deterministic call reached the node and >=3 apply paths were compared; distinct = hash of program + path options")
 	rapid.Check(t, func(rt *rapid.T) { c01Case(rt, rec) })
 }
 
 func c01Case(rt *rapid.T, rec *vstat.Rec) {
-	reqs, ndEndpoint, class := c01GenProgram(rt)
+	reqs := c01GenProgram(rt)
 	followerLive := rapid.IntRange(0, 2).Draw(rt, "followerLive") == 0
 	snapshotBefore := rapid.IntRange(0, 2).Draw(rt, "snapshotBeforeReplay") == 0
 	crossSecond := rapid.IntRange(0, 3).Draw(rt, "crossSecond") == 0
@@ -350,7 +362,10 @@ func c01Case(rt *rapid.T, rec *vstat.Rec) {
 	}
 
 	// ---- the program
-	setup := c01Req{Endpoint: "execute-json", Stmts: []c01Stmt{{SQL: "CREATE TABLE r (id INTEGER PRIMARY KEY, a, b, c)"}}}
+	setup := c01Req{Endpoint: "execute-json"}
+	for _, ep := range c01Endpoints {
+		setup.Stmts = append(setup.Stmts, c01Stmt{SQL: "CREATE TABLE " + c01Table[ep] + " (id INTEGER PRIMARY KEY, a, b, c)"})
+	}
 	all := append([]c01Req{setup}, reqs...)
 	ndSent, stmtErrors := 0, 0
 	for _, r := range all {
@@ -383,25 +398,46 @@ func c01Case(rt *rapid.T, rec *vstat.Rec) {
 		fail("C01/dump-error", "cannot dump the live leader: %v", err)
 	}
 	paths := 1
-	sigFor := func() string { return fmt.Sprintf("C01/diverged{endpoint=%s}", ndEndpoint) }
 	known := "statements arriving as SQL text on /db/load are replicated without rewriting RANDOM()/RANDOMBLOB()/date-time-at-now, so every apply path evaluates them again"
+	liveT := c01Split(live)
+	divergedEndpoints := map[string]bool{}
+	// diverged compares one path with the live leader, table by table; it
+	// returns true when the comparison of further paths is pointless.
 	diverged := func(path, d string) bool {
 		if d == live {
 			return false
 		}
-		sig := sigFor()
-		what := fmt.Sprintf("apply path %q differs from the live leader (non-deterministic calls via %s, class %s): %s; live {%s} %s {%s}", path, ndEndpoint, class, store.G8aFirstDiff(d, live), store.G8aSummary(live), path, store.G8aSummary(d))
-		if rec.KnownHit(sig, known) {
-			return true
+		dT := c01Split(d)
+		attributed := false
+		for _, ep := range c01Endpoints {
+			tbl := c01Table[ep]
+			if dT[tbl] == liveT[tbl] {
+				continue
+			}
+			attributed = true
+			divergedEndpoints[ep] = true
+			sig := fmt.Sprintf("C01/diverged{endpoint=%s}", ep)
+			if rec.KnownHit(sig, known) {
+				continue
+			}
+			fail(sig, "apply path %q differs from the live leader in table %s (written through %s): %s", path, tbl, ep, store.G8aFirstDiff(dT[tbl], liveT[tbl]))
 		}
-		fail(sig, "%s", what)
-		return true
+		if !attributed {
+			fail("C01/diverged{endpoint=?}", "apply path %q differs from the live leader outside the endpoint tables: %s", path, store.G8aFirstDiff(d, live))
+		}
+		return false
 	}
 	finish := func() {
 		nontrivial := ndSent > 0 && paths >= 3
 		rec.Case(nontrivial, fmt.Sprintf("%s|f=%v s=%v x=%v", strings.Join(hist, "||"), followerLive, snapshotBefore, crossSecond))
-		rec.Label("nd-endpoint:" + ndEndpoint)
-		rec.Label("nd-class:" + class)
+		for ep := range divergedEndpoints {
+			rec.Label("diverged-endpoint:" + ep)
+		}
+		for _, r := range reqs {
+			if r.NonDet > 0 {
+				rec.Label("nd-via:" + r.Endpoint)
+			}
+		}
 		if ndSent == 0 {
 			rec.Label("no-nondeterministic-call")
 		}
